@@ -36,7 +36,7 @@ def drop_tree(d):
 
 
 def run_checks(tree):
-    rc, out = sh(f"python3-vt {VERIF}/sa/cli.py all --tier quick --repo {tree}")
+    rc, out = sh(f"SA_NO_SELFTEST=1 python3-vt {VERIF}/sa/cli.py all --tier quick --repo {tree}")
     caught = sorted({l.split("property=")[1].split()[0] for l in out.splitlines() if l.startswith("VIOLATION")})
     errors = sorted({l.split("property=")[1].split()[0] for l in out.splitlines() if l.startswith("ANALYSIS-ERROR")})
     rules = sorted({l.split(": ")[1] for l in out.splitlines() if ": C" in l and not l.startswith(("VIOLATION", "KNOWN", "ANALYSIS")) and len(l.split(": ")) > 2})
